@@ -18,7 +18,9 @@ RULE = ("E1: ('wrap', recipient, key class, selector, form) = full product of 12
         "5 session-key classes x selectors 0..3 x {EccEncryptor(public), EccDecryptor} as explicit recipient, several ephemeral draws each; the "
         "block must be selector || 04 || X || Y || 16 bytes, (X,Y) a valid P-256 point, and the session key is recovered WITHOUT the library: "
         "OpenSSL pkeyutl -derive with the recipient's private key -> SHA-256 -> first 16 bytes -> reference AES-CBC; the library's own decryptor "
-        "must agree. ('default', selector, key class) = no explicit recipient: the published keys are replaced by test keys (their SHA-256 digests "
+        "must agree. ('eph', recipient, class, key) = the ephemeral scalar is FORCED through the randomness seam into edge classes found by "
+        "deterministic search with the reference curve: 1, 2, n-1, X with leading 00 / 04 / FF, Y with leading 00, ECDH shared x with one / two "
+        "leading zero bytes. ('default', selector, key class) = no explicit recipient: the published keys are replaced by test keys (their SHA-256 digests "
         "are pinned against the source constants) and the block for selector s must open with private key s and no other. ('reject', kind, i) = "
         "(0,0), (x,y+-1), x>=p, y>=p, a secp256k1 point, 32 seed-derived 64-byte strings: EccDecryptor.decrypt must raise.")
 ASSUMPTIONS = [
@@ -57,7 +59,49 @@ def prepare(ctx):
         raise SystemExit("broken environment: OpenSSL CLI is required as oracle for C09")
 
 
+EPH_CLASSES = ["e=1", "e=2", "e=n-1", "X-leading-00", "X-leading-04", "Y-leading-00", "X-leading-FF", "shared-x-leading-00", "shared-x-leading-0000-or-small"]
+_EPH = {}
+
+
+def eph_scalar(ctx, ri, cls, d=None):
+    """Deterministic search (textbook curve, incremental addition) for an ephemeral scalar of the given class
+    (for the recipient scalar d, default: recipient #ri of this module)."""
+    key = (ri if d is None else d, cls)
+    if key in _EPH:
+        return _EPH[key]
+    cv = EC.P256
+    if d is None:
+        d = scalars(ctx)[ri]
+    if cls == "e=1":
+        e = 1
+    elif cls == "e=2":
+        e = 2
+    elif cls == "e=n-1":
+        e = N - 1
+    else:
+        Q = cv.mul(d, cv.g)
+        start = 3 + ctx.symint("c09-eph-start-%s" % (ri,), 1 << 64)
+        base = cv.g if not cls.startswith("shared") else Q
+        P = cv.mul(start, base)
+        e = None
+        for i in range(200000):
+            v = P[0] if cls[0] in "Xs" else P[1]
+            top = v >> 248
+            ok = {"X-leading-00": top == 0, "X-leading-04": top == 4, "Y-leading-00": top == 0, "X-leading-FF": top == 0xFF,
+                  "shared-x-leading-00": top == 0, "shared-x-leading-0000-or-small": (v >> 240) == 0}[cls]
+            if ok:
+                e = start + i
+                break
+            P = cv.add(P, base)
+    _EPH[key] = e
+    return e
+
+
 def cases(ctx):
+    for ri in (0, 4, 6, 7):
+        for cls in EPH_CLASSES:
+            for ki in (0, 2):
+                yield ("eph", ri, cls, ki)
     ns = len(scalars(ctx))
     for si in range(ns):
         for ki in range(5):
@@ -121,6 +165,33 @@ def run_case(ctx, case):
                 return o.viol("block|library-unwrap", "library decryptor returns %r" % (sk,))
         if len(points) != 2:
             o.viol("block|ephemeral-reused", "two packs used the same ephemeral point")
+        return o
+    if kind == "eph":
+        _, ri, cls, ki = case
+        d = scalars(ctx)[ri]
+        key = key_of(ctx, ki)
+        e = eph_scalar(ctx, ri, cls)
+        if e is None:
+            return Outcome("no-scalar-of-this-class-found", False)
+        priv = FX.priv_key(d)
+        # the library derives the ephemeral scalar as int(first 256 bits of 33 entropy bytes) + 1
+        preset = [(e - 1).to_bytes(32, "big") + b"\x00"]
+        with DetRandom("c09-eph", preset=preset) as rnd:
+            blk = InitEccAuthBlock(1).pack(key, [EccDecryptor(1, priv)])
+        R = EC.P256.mul(e, EC.P256.g)
+        if len(blk) == 82 and blk[2:66] != R[0].to_bytes(32, "big") + R[1].to_bytes(32, "big"):
+            return Outcome("ephemeral-not-forced", False).viol(
+                "eph|seam", "the ephemeral key was not derived from the entropy as assumed (library draws it differently)")
+        check_block(o, blk, 1, key, d, "ephemeral class %s, recipient #%d" % (cls, ri))
+        if o.viols:
+            o.viols = [("%s|%s" % (fp, cls if "leading" in cls else "edge"), m, dd) for fp, m, dd in o.viols]
+            return o
+        try:
+            ab, sk = InitEccAuthBlock.unpack(blk, [EccDecryptor(1, priv)])
+        except Exception as ex:
+            return o.viol("eph|library-unwrap-raises|%s" % cls, "library decryptor raised %r for ephemeral class %s" % (ex, cls))
+        if sk != key:
+            o.viol("eph|library-unwrap|%s" % cls, "library decryptor returns a different key for ephemeral class %s" % cls)
         return o
     if kind == "default":
         _, sel, ki = case
